@@ -10,6 +10,7 @@ CONSTANTS
     BugDrainWrong = FALSE
     BugLowWaterStrict = FALSE
     BugNoRereg = FALSE
+    BugCloseLeaves = FALSE
 SPECIFICATION FairSpec
 PROPERTIES AllDelivered Resume
 CHECK_DEADLOCK FALSE
